@@ -291,6 +291,13 @@ def chk_c06(w):
                      what='worker still pending after Stop(graceful=%s) with %d connections' % (g, live_at_stop))
         if g and live_at_stop > 0:
             acc.wit['c06_graceful_waiting'] += 1
+            # the worker will only be polled again if its 1 s timer was polled (= registered the waker) after it was armed
+            stv = w.worker.f[w.c.structs['ServerWorker'].index('state')].v
+            if getattr(stv, 'variant', None) == 'Shutdown':
+                timer = stv.f[0].v.f[w.c.structs['Shutdown'].index('timer')].v
+                while hasattr(timer, 'content'): timer = timer.content.v
+                acc.violated(ex, 'C06/shutdown_timer_is_polled_after_being_armed', not getattr(timer, 'polled', True), hist=w.hist,
+                             what='the worker returned Pending during graceful shutdown without polling its re-armed timer: nothing will wake it up')
             if k > 0:
                 # liveness on observables: the worker re-arms a 1 s timer at every tick, so a poll that comes >= 1 s after the
                 # previous one finds the timer expired; it must then finish if it is idle or if shutdown_timeout has passed
